@@ -606,4 +606,118 @@ theorem inv1_spin {p : Prog} (f : W → Nat) (n : Nat) (w : W) (h : Inv1 p w) : 
   spin_inv (exec p) f (Inv1 p) (fun _ c rest h hc hd => inv1_pop h c rest hc hd)
     (fun _ c rest h hc hcr => inv1_adv h c rest hc hcr) n w h
 
+/-! ## the loop ends: a potential that every executed call lowers -/
+
+theorem reach_calls_length {k : Nat} {w w' : W} (h : Reach k w w') : w'.calls.length ≤ w.calls.length + k := by
+  induction h with
+  | refl w => simp
+  | upd f _ ih => simpa using ih
+  | sched d a ha _ ih =>
+    simp only [schedule_calls, insert_length] at ih
+    omega
+  | deliv b _ ih =>
+    rename_i k w w' _
+    have : (deliver (.value b) w).calls.length ≤ w.calls.length := by
+      rw [deliver_calls]; split
+      · exact List.length_filter_le _ _
+      · exact Nat.le_refl _
+    omega
+
+/-- pending calls plus what the chain may still schedule -/
+def pot (p : Prog) (w : W) : Nat := w.calls.length + rem p w.u
+
+theorem pot_pop (p : Prog) (w : W) (c : DCall (QAct CAct)) (rest : List (DCall (QAct CAct))) (hc : w.calls = c :: rest) :
+    pot p (execCall (exec p) c { w with calls := rest }) < pot p w := by
+  have hw : pot p w = rest.length + 1 + rem p w.u := by simp [pot, hc]
+  rw [hw]
+  rcases c with ⟨t, q⟩
+  cases q with
+  | timeout => simp [pot, execCall]
+  | user l a =>
+    cases a with
+    | noop => simp [pot, execCall, exec]
+    | stop =>
+      simp only [pot, execCall, exec]
+      split <;> simp [rem]
+    | stageDone r =>
+      obtain ⟨k, hk, hk2⟩ := resume_reach p r (logEvent (.user l) { w with calls := rest })
+      have := reach_calls_length hk
+      simp only [pot, execCall, exec]
+      simp only [logEvent_calls, logEvent_u] at this hk2
+      omega
+
+def NoDue (w : W) : Prop := ∀ c rest, w.calls = c :: rest → w.now < c.time
+
+theorem drain_pot (p : Prog) : ∀ (n : Nat) (w : W), pot p (drain (exec p) n w) ≤ pot p w
+  | 0, w => Nat.le_refl _
+  | n + 1, w => by
+      unfold drain
+      split
+      · exact Nat.le_refl _
+      · rename_i c rest hc
+        split
+        · exact Nat.le_trans (drain_pot p n _) (Nat.le_of_lt (pot_pop p w c rest hc))
+        · exact Nat.le_refl _
+
+theorem drain_done (p : Prog) : ∀ (n : Nat) (w : W), pot p w ≤ n → NoDue (drain (exec p) n w)
+  | 0, w, h => by
+      have : w.calls = [] := List.eq_nil_of_length_eq_zero (by unfold pot at h; omega)
+      intro c rest hc; simp [drain, this] at hc
+  | n + 1, w, h => by
+      unfold drain
+      split
+      · rename_i hc; intro c rest hc'; rw [hc] at hc'; cases hc'
+      · rename_i c rest hc
+        split
+        · have := pot_pop p w c rest hc
+          exact drain_done p n _ (by omega)
+        · rename_i hnd
+          intro c' rest' hc'
+          rw [hc] at hc'
+          obtain ⟨rfl, _⟩ := List.cons.inj hc'
+          omega
+
+theorem drain_pot_lt (p : Prog) (n : Nat) (w : W) (c : DCall (QAct CAct)) (rest : List (DCall (QAct CAct)))
+    (hc : w.calls = c :: rest) (hdue : c.time ≤ w.now) : pot p (drain (exec p) (n + 1) w) < pot p w := by
+  unfold drain
+  simp only [hc, hdue, if_true]
+  exact Nat.lt_of_le_of_lt (drain_pot p n _) (pot_pop p w c rest hc)
+
+/-- the loop of `reactor.run()` ends because the reactor is crashed (or nothing is left), and then nothing
+that is still queued is due -/
+theorem spin_done (p : Prog) (B : Nat) : ∀ (n : Nat) (w : W), pot p w ≤ B → pot p w < n →
+    ((spin (exec p) (fun _ => B) n w).crashed = true ∨ (spin (exec p) (fun _ => B) n w).calls = []) ∧
+    (w.crashed = false → NoDue (spin (exec p) (fun _ => B) n w)) ∧
+    pot p (spin (exec p) (fun _ => B) n w) ≤ pot p w
+  | 0, _, _, h => by omega
+  | n + 1, w, hB, hn => by
+      unfold spin
+      split
+      · rename_i hcr
+        exact ⟨Or.inl hcr, (fun h => by rw [hcr] at h; cases h), Nat.le_refl _⟩
+      · split
+        · rename_i hc
+          exact ⟨Or.inr hc, (fun _ c rest hc' => by rw [hc] at hc'; cases hc'), Nat.le_refl _⟩
+        · rename_i c rest hc
+          simp only []
+          obtain ⟨w1, hw1⟩ : ∃ w1 : W, w1 = { w with now := max w.now c.time } := ⟨_, rfl⟩
+          rw [← hw1]
+          have hp1 : pot p w1 = pot p w := by rw [hw1]; rfl
+          have hc1 : w1.calls = c :: rest := by rw [hw1]; exact hc
+          have hdue : c.time ≤ w1.now := by rw [hw1]; show c.time ≤ max w.now c.time; omega
+          have hB1 : 1 ≤ B := by simp [pot, hc] at hB; omega
+          obtain ⟨B', rfl⟩ : ∃ B', B = B' + 1 := ⟨B - 1, by omega⟩
+          have hlt := drain_pot_lt p B' w1 c rest hc1 hdue
+          have hnd := drain_done p (B' + 1) w1 (by omega)
+          have ih := spin_done p (B' + 1) n (drain (exec p) (B' + 1) w1) (by omega) (by omega)
+          refine ⟨ih.1, fun _ => ?_, by omega⟩
+          cases hcr2 : (drain (exec p) (B' + 1) w1).crashed with
+          | false => exact ih.2.1 hcr2
+          | true =>
+            have : spin (exec p) (fun _ => B' + 1) n (drain (exec p) (B' + 1) w1) = drain (exec p) (B' + 1) w1 := by
+              cases n with
+              | zero => rfl
+              | succ n => unfold spin; simp [hcr2]
+            rw [this]; exact hnd
+
 end TTV.Props.C14
